@@ -193,17 +193,17 @@ def ElemSp.Avoids (x : Char) : ElemSp → Prop
 def SpElems.WF (es : SpElems) : Prop := ∀ p ∈ es, p.2.WF
 def SpElems.Avoids (es : SpElems) (x : Char) : Prop := ∀ p ∈ es, p.2.Avoids x
 
-theorem Spelling.WF.avoids {sp : Spelling} (h : sp.WF) {x : Char} (hx : isWs x = false) : sp.Avoids x := by
+theorem Spelling.WF.avoids {sp : Spelling} (h : sp.WF) {x : Char} (hx : isWsInt x = false) : sp.Avoids x := by
   constructor
   · intro hm; have := h.1 x hm; simp_all
   · intro hm; have := h.2 x hm; simp_all
 
-theorem ElemSp.WF.avoids {s : ElemSp} (h : s.WF) {x : Char} (hx : isWs x = false) : s.Avoids x := by
+theorem ElemSp.WF.avoids {s : ElemSp} (h : s.WF) {x : Char} (hx : isWsInt x = false) : s.Avoids x := by
   cases s with
   | one sp => exact Spelling.WF.avoids h hx
   | range a b => exact ⟨Spelling.WF.avoids h.1 hx, Spelling.WF.avoids h.2 hx⟩
 
-theorem SpElems.WF.avoids {es : SpElems} (h : es.WF) {x : Char} (hx : isWs x = false) : es.Avoids x :=
+theorem SpElems.WF.avoids {es : SpElems} (h : es.WF) {x : Char} (hx : isWsInt x = false) : es.Avoids x :=
   fun p hp => ElemSp.WF.avoids (h p hp) hx
 
 theorem not_mem_spell (sp : Spelling) (n : Nat) (x : Char) (hav : sp.Avoids x) (h1 : numChar x = false)
@@ -231,8 +231,31 @@ theorem parseNat_spell (sp : Spelling) (h : sp.WF) (n : Nat) : parseNat (spell s
   rw [autoIntL_spell sp h]
   simp
 
-theorem dash_props : numChar '-' = false ∧ isWs '-' = false ∧ numChar ',' = false ∧ isWs ',' = false ∧
-    numChar ':' = false ∧ isWs ':' = false ∧ numChar ' ' = false ∧ numChar '+' = false ∧ isWs '+' = false := by decide
+theorem dash_props : numChar '-' = false ∧ isWsInt '-' = false ∧ numChar ',' = false ∧ isWsInt ',' = false ∧
+    numChar ':' = false ∧ isWsInt ':' = false ∧ numChar ' ' = false ∧ numChar '+' = false ∧ isWsInt '+' = false := by decide
+
+theorem numChar_not_spaceStr {c : Char} (h : numChar c = true) : isSpaceStr c = false := by
+  have h1 := numChar_not_ws h
+  have h2 := numChar_ascii h
+  have h3 : isUniSpace c = false := by
+    cases hu : isUniSpace c with
+    | false => rfl
+    | true => have := isUniSpace_ge hu; omega
+  have h4 : (28 ≤ c.toNat && c.toNat ≤ 31) = false := by
+    cases hb : (28 ≤ c.toNat && c.toNat ≤ 31) with
+    | false => rfl
+    | true =>
+      exfalso
+      simp only [Bool.and_eq_true, decide_eq_true_eq] at hb
+      have hc : c ∈ [Char.ofNat 28, Char.ofNat 29, Char.ofNat 30, Char.ofNat 31] := by
+        have : c = Char.ofNat c.toNat := (Char.ofNat_toNat c).symm
+        rw [this]
+        have : c.toNat = 28 ∨ c.toNat = 29 ∨ c.toNat = 30 ∨ c.toNat = 31 := by omega
+        rcases this with e | e | e | e <;> simp [e]
+      have : ∀ x ∈ [Char.ofNat 28, Char.ofNat 29, Char.ofNat 30, Char.ofNat 31], numChar x = false := by decide
+      have := this c hc
+      simp_all
+  simp [isSpaceStr, h1, h3, h4]
 
 theorem parseElem_one (sp : Spelling) (h : sp.WF) (n : Nat) : parseElem (spell sp (n : Int)) = some (.one n) := by
   have hd : '-' ∉ spell sp (n : Int) :=
@@ -325,14 +348,14 @@ theorem parseElems_render (es : SpElems) (h : es.WF) : parseElems (render es) = 
   cases es with
   | nil => simp [render, joinC, parseElems, elemsOf]
   | cons p ps =>
-    have hnw : (render (p :: ps)).all isWs = false := by
+    have hnw : (render (p :: ps)).all isSpaceStr = false := by
       obtain ⟨c, hc, hn⟩ := exists_numChar_renderElem p.1 p.2
       have hmem : c ∈ render (p :: ps) := mem_joinC_head _ _ _ c hc
-      cases hall : (render (p :: ps)).all isWs with
+      cases hall : (render (p :: ps)).all isSpaceStr with
       | false => rfl
       | true =>
         have := List.all_eq_true.mp hall c hmem
-        have := numChar_not_ws hn
+        have := numChar_not_spaceStr hn
         simp_all
     unfold parseElems
     simp only [hnw, Bool.false_eq_true, if_false]
